@@ -1,9 +1,10 @@
 #!/bin/bash
-# assemble coq/_CoqProject from coq/project.d/*.txt (one fragment per property; order is irrelevant, coqdep sorts)
+# assemble coq/_CoqProject from coq/project.d/*.txt (one fragment per property; order is irrelevant, coqdep sorts);
+# entries whose file does not exist (yet) are skipped so that an unfinished fragment cannot break other builds
 cd "$(dirname "$0")/../coq"
 {
   echo "-Q . MrVerif"
   echo "-arg -w -arg -notation-overridden,-deprecated-hint-without-locality,-ambiguous-paths"
-  cat project.d/*.txt | grep -v '^\s*$' | grep -v '^#' | sort -u
-} > _CoqProject.new
-if ! cmp -s _CoqProject.new _CoqProject; then mv _CoqProject.new _CoqProject; else rm _CoqProject.new; fi
+  cat project.d/*.txt | grep -v '^\s*$' | grep -v '^#' | sort -u | while read -r f; do [ -f "$f" ] && echo "$f"; done
+} > _CoqProject.new.$$
+if ! cmp -s _CoqProject.new.$$ _CoqProject; then mv _CoqProject.new.$$ _CoqProject; else rm _CoqProject.new.$$; fi
